@@ -31,6 +31,10 @@ ASSUMPTIONS = [
 
 
 MUTANTS = [
+    ("empty pixel list keeps the template's table", "AegeanTools/regions.py",
+     "        hdulist[1] = tbhdu\n",
+     "        if len(self._uniq()) > 0:\n            hdulist[1] = tbhdu\n",
+     "C12-R3"),
     ("hand-written vertex formatter, sign on the degrees field",
      "AegeanTools/regions.py",
      "                        pos = SkyCoord(ra/15, dec, unit=(u.degree, u.degree))\n"
@@ -217,6 +221,30 @@ def run(ctx):
             _depends_on_call(fi.node, arr, "self", ("_uniq",)))
         ctx.check("C12-R3", fi, "column data " + norm(c), dep,
                   "the column array is not derived from self._uniq()", node=c)
+
+    # the template's own table never reaches the output
+    from ..cfg import CFG, ENTRY
+    g3 = CFG(fi.node)
+    repl = [n_ for n_, st in g3.stmt.items() if g3.kind[n_] == "stmt"
+            and isinstance(st, ast.Assign)
+            and isinstance(st.targets[0], ast.Subscript)
+            and isinstance(st.targets[0].slice, ast.Constant)
+            and st.targets[0].slice.value == 1]
+    outs = [n_ for n_, st in g3.stmt.items() if g3.kind[n_] == "stmt"
+            and any(isinstance(c, ast.Call) and
+                    isinstance(c.func, ast.Attribute) and
+                    c.func.attr == "writeto" for c in ast.walk(st))]
+    ctx.floor("C12-R3", len(repl) + len(outs), 2, "table replacement and "
+              "writeto in write_fits")
+    for o_ in outs:
+        p_ = g3.path_avoiding(ENTRY, o_, repl)
+        ctx.check("C12-R3", fi, "table HDU replaced on every path to " +
+                  norm(g3.stmt[o_], 50), p_ is None,
+                  "a path reaches writeto without replacing HDU 1 of the "
+                  "template: the packaged MOC.fits is a real example MOC "
+                  "(171551 cells), so e.g. an empty region is exported as "
+                  "that example's sky area", node=g3.stmt[o_],
+                  path=g3.describe(p_) if p_ else None)
 
     # ---------------------------------------------------------------- R4
     ctx.rule("C12-R4", "write_reg: healpy.boundaries(2**d, p, step=1, "
